@@ -121,6 +121,12 @@ def receiver_of(T, receiver):
     """the object the attribute is looked up on: an instance is made by the caller; the class itself; a parameterized alias"""
     if receiver == "class":
         return T
+    if receiver == "typing alias":
+        import typing
+        return {list: typing.List[int], dict: typing.Dict[str, int], set: typing.Set[int], deque: typing.Deque[int]}[T]
+    if receiver == "bare typing alias":
+        import typing
+        return {list: typing.List, dict: typing.Dict, set: typing.Set, deque: typing.Deque}[T]
     return T[int, int] if T is dict else T[int]
 
 
@@ -233,7 +239,7 @@ class Gate(VC):
         return z3.Implies(ret, z3.And(*[self.attr.t != z3.StringVal(m) for m in MUT[self.T]]))
 
     def configure(self, I):
-        I.inline.update({"jinja2.sandbox:modifies_known_mutable", "jinja2.sandbox:is_internal_attribute",
+        I.inline.update({"jinja2.sandbox:modifies_known_mutable", "jinja2.sandbox:is_internal_attribute", "jinja2.sandbox:_alias_origin",
                          "jinja2.sandbox:SandboxedEnvironment.is_safe_attribute"})
         if self.receiver == "instance":
             _sbx.exact_types(I, {"obj": self.T})
@@ -352,7 +358,7 @@ class RouteGate(VC):
     def configure(self, I):
         from contracts import c17
         c17.install_ghosts(I)
-        I.inline.update({"jinja2.sandbox:modifies_known_mutable", "jinja2.sandbox:is_internal_attribute",
+        I.inline.update({"jinja2.sandbox:modifies_known_mutable", "jinja2.sandbox:is_internal_attribute", "jinja2.sandbox:_alias_origin",
                          "jinja2.sandbox:SandboxedEnvironment.is_safe_attribute", "jinja2.sandbox:ImmutableSandboxedEnvironment.is_safe_attribute"})
         _sbx.exact_types(I, {"obj": self.T})
         _sbx.install_super(I, S.ImmutableSandboxedEnvironment, lambda: (self.env, S.ImmutableSandboxedEnvironment))
@@ -427,7 +433,7 @@ def native_gate_routes(task, tier, seed):
                 n += 1
                 mod, detail = native_modifies(T.__name__, name, None, kw)
                 via = None
-                for rcv in ("class", "alias"):
+                for rcv in ("class", "alias", "typing alias", "bare typing alias"):
                     if not mod:
                         mod, detail = native_modifies_via_class(T.__name__, name, rcv, kw)
                         via = rcv if mod else None
@@ -449,7 +455,7 @@ class NativeGate(FnTask):
     def __init__(self):
         def replay(w):
             v, d = native_modifies(w["type"], w["attr"])
-            for rcv in ("class", "alias"):
+            for rcv in ("class", "alias", "typing alias", "bare typing alias"):
                 if not v:
                     v, d = native_modifies_via_class(w["type"], w["attr"], rcv)
             return (v, d)
@@ -957,6 +963,9 @@ def statement_templates():
         "{% for r in rows %}{% set r.t %}{{ loop.index }}{% endset %}{% endfor %}", "{% for k, v in d|items %}{% set d.k %}{{ v }}{% endset %}{% endfor %}",
         "{% for r in nested %}{% set r.x | length %}abc{% endset %}{% endfor %}", "{% for r in rows %}{% for i in r.t %}{% set r.t %}{% endset %}{% endfor %}{% set r.z %}{% endset %}{% endfor %}",
         "{% set ns = namespace(d=d) %}{% set ns.d %}replaced{% endset %}{{ ns.d }}{% set d.x %}{% endset %}",
+        # hunt i2/C19_1: the variable of the reference is rebound by the same statement, after the guard
+        "{% set ns = namespace() %}{% set ns, ns.x = d, 1 %}", "{% set ns = namespace() %}{% set ns.x, ns = 1, d %}{% set ns = namespace() %}{% set (ns, (y, ns.a)) = (d2, (1, 2)) %}",
+        "{% set ns = namespace() %}{% for i in range(2) %}{% set ns, ns.n = rows[i], 9 %}{% endfor %}", "{% set ns = namespace() %}{% set ns, ns.x = d, l2 %}{{ d }}",
     ]
     return ts
 
@@ -1145,12 +1154,55 @@ def statement_emit_tasks():
 
     def configure_assign(I):
         def find_all(I_, st, args, kwargs, node):
-            # the only namespace reference below an Assign whose target IS a namespace reference is that target
-            if args[1] is not N.NSRef:
-                from pyvc.values import Unsupported
-                raise Unsupported("find_all of another class", node)
-            return [(st, (st.get(args[0]).fields["target"],))]
+            # the only namespace reference below an Assign whose target IS a namespace reference is that target;
+            # a namespace reference has no Name node below it
+            h = st.get(args[0])
+            if args[1] is N.NSRef and h.cls is N.Assign:
+                return [(st, (h.fields["target"],))]
+            if args[1] is N.Name and h.cls is N.NSRef:
+                return [(st, ())]
+            from pyvc.values import Unsupported
+            raise Unsupported("find_all of another class", node)
         I.specs["Node.find_all"] = find_all
+
+    # ---- {% set n, n.x = ... %}: the guard is evaluated before the statement, so it says nothing about a reference whose variable the
+    # same statement rebinds; such a target must not reach code generation (b1257b3: rejected at compile time)
+    def target_tuple(st):
+        name = emit.make_node(st, N.Name, "node.target.items[0]", fields={"ctx": "store"})
+        ref = emit.make_node(st, N.NSRef, "node.target.items[1]")
+        tup = emit.make_node(st, N.Tuple, "node.target", fields={"ctx": "store"})
+        st.ghost["c19_rebind"] = (name, ref, tup)
+        return {"target": tup}
+
+    def configure_rebind(I):
+        def find_all(I_, st, args, kwargs, node):
+            name, ref, tup = st.ghost["c19_rebind"]
+            if args[1] is N.NSRef:
+                return [(st, (ref,))]
+            if args[1] is N.Name and args[0] == tup:
+                return [(st, (name,))]
+            from pyvc.values import Unsupported
+            raise Unsupported("find_all of another class", node)
+        I.specs["Node.find_all"] = find_all
+
+    def rebind_pred(sc, tree, ph, txt):
+        name, ref, tup = sc.st.ghost["c19_rebind"]
+        nm, rf = sc.st.get(name).fields.get("name"), sc.st.get(ref).fields.get("name")
+        if nm is None or rf is None:
+            return ["the names of the target were never read: no rebinding check"]
+        same_name = to_term(nm, "str") == to_term(rf, "str")
+        if sc.outcome == "raise":
+            # refused at compile time: only when the stored name can be the variable of the reference
+            return [] if not sc.holds(z3.Not(same_name)) else ["compile-time error although the stored name differs from the variable of the reference"]
+        fails = []
+        if not sc.holds(z3.Not(same_name)):
+            fails.append("code is generated for a target that stores a name and an attribute of the same name: the Namespace guard, evaluated "
+                         "before the statement, does not cover the object the name is rebound to")
+        guards = _guarded_idents(tree, ph)
+        refs = [e for e in sc.st.trace if e.kind == "call" and e.name == "symbols.ref" and e.args and e.args[0] is rf]
+        if not any(any(g.eq(e.result.t) for e in refs) for _k, g in guards):
+            fails.append("no isinstance(<variable>, Namespace) guard for the namespace reference")
+        return fails
 
     def replay(w):
         return replay_statements({})
@@ -1159,11 +1211,13 @@ def statement_emit_tasks():
                    nsref_store_pred, mode="stmts", buffers=(None,), replay_fn=replay, node_fields=target_nsref, min_paths=2),
           EmitTask("C19", "C19.statements.frame.emit.visit_Assign[target=NSRef]", "jinja2.compiler:CodeGenerator.visit_Assign", N.Assign,
                    nsref_store_pred, mode="stmts", buffers=(None,), replay_fn=replay, node_fields=target_nsref, configure=configure_assign, min_paths=1)]
+    ts.append(EmitTask("C19", "C19.statements.frame.emit.visit_Assign[target=(name, NSRef)].not_rebound", "jinja2.compiler:CodeGenerator.visit_Assign", N.Assign,
+                       rebind_pred, mode="stmts", buffers=(None,), replay_fn=replay, node_fields=target_tuple, configure=configure_rebind, min_paths=2))
     ts += all_visitor_tasks("C19", "C19.statements.frame.emit.no_foreign_store", no_foreign_store_pred, replay_fn=replay, buffers=(None,))
     return ts
 
 
-TASKS = ([Gate(T) for T in TYPES] + [Gate(T, r) for r in ("class", "alias") for T in TYPES] + [Modifies(T) for T in TYPES + UNSUPPORTED]
+TASKS = ([Gate(T) for T in TYPES] + [Gate(T, r) for r in ("class", "alias", "typing alias", "bare typing alias") for T in TYPES] + [Modifies(T) for T in TYPES + UNSUPPORTED]
          + [FnTask("C19", "C19.spec.MUT", spec_crosscheck, "table")]
          + [FrameProxy(g, names) for g, names in sorted(frame_proxy_groups().items())]
          + [JoinFrame()]
